@@ -241,6 +241,72 @@ Proof.
   apply nested_words; [apply free_concat|exact H].
 Qed.
 
+Lemma replace_go_terminated (x new : str) (toks : list str) (rest : str) : x <> [] ->
+  Forall (fun a : str => only_at_end x a = true) toks ->
+  replace_go x new (terminated x toks ++ rest) 0
+  = terminated new toks ++ replace_go x new rest 0.
+Proof.
+  intros Hx H. induction H as [|a toks Ha _ IH]; [reflexivity|].
+  rewrite !terminated_cons, <- !app_assoc. rewrite only_at_end_replace_go by assumption.
+  now rewrite IH.
+Qed.
+
+(* ---------- the end of prepare_line at syllable level: split on the syllable separator, clean
+   each piece, join with spaces, utils.strip ---------- *)
+
+Theorem split_join_tail (x : str) (f : str -> str) (bodies toks : list str) (rest : str) :
+  x <> [] -> Forall (fun a : str => only_at_end x a = true) bodies ->
+  map f bodies = toks -> Forall tok_ok toks ->
+  (forall a : str, ws_only a -> ws_only (f a)) -> ws_only rest ->
+  norm_ws (join [sp] (map f (split_on x (terminated x bodies ++ rest)))) = join [sp] toks.
+Proof.
+  intros Hx Hoe Hf Hok Hws Hr. unfold terminated.
+  rewrite split_on_joined_rest by assumption. rewrite map_app, Hf.
+  destruct (join_app_ws toks (map f (split_on x rest))) as (w & Hw & E).
+  { apply Forall_map. eapply Forall_impl.
+    2:{ unfold split_on. apply split_go_ws_only; [exact Hr|apply ws_only_nil]. }
+    intros a Ha. now apply Hws. }
+  rewrite E. now apply norm_ws_join_ws.
+Qed.
+
+Definition clean_syll (xp : str) (x : str) : str := replace_all [sp] [] (replace_all xp [] x).
+
+Lemma clean_syll_ws_only (xp a : str) : ws_only a -> ws_only (clean_syll xp a).
+Proof.
+  intros H. unfold clean_syll. apply replace_all_ws_only; [apply ws_only_nil|].
+  apply replace_all_ws_only; [apply ws_only_nil|exact H].
+Qed.
+
+(* syllable level on the compact rendering: nothing but [tree_ok] is needed any more; in
+   particular the separators may contain spaces (the syllable separator may be a space) *)
+Theorem prepare_syll_spec_spaces (xp xs xw : str) (t : utree) (ws : str) :
+  xp <> [] -> xs <> [] -> xw <> [] -> tree_ok xp xs xw t -> ws_only ws ->
+  prepare_line (sep3 xp xs xw) USyll (render (sep3 xp xs xw) t ++ ws) = Ok (join [sp] (sylls_of t)).
+Proof.
+  intros Hxp Hxs Hxw Ht Hws. unfold prepare_line.
+  cbn [sep3 s_word s_syll s_phone Prepare.Model.osep]. cbv zeta. f_equal.
+  rewrite render3_eq, (replace_all_go xw) by exact Hxw.
+  rewrite replace_go_terminated; [|exact Hxw|].
+  2:{ apply Forall_map. eapply Forall_impl; [|exact Ht]. now intros w (_ & _ & H). }
+  rewrite <- (replace_all_go xw) by exact Hxw.
+  rewrite terminated_nil_sep.
+  assert (E1 : concat (map (word_body xp xs) t) = terminated xs (map (terminated xp) (concat t))).
+  { unfold word_body. rewrite <- (map_map (map (terminated xp)) (terminated xs)).
+    now rewrite concat_terminated, <- concat_map. }
+  rewrite E1. pose proof (tree_ok_sylls xp xs xw t Ht) as Hs.
+  apply (split_join_tail xs (clean_syll xp)).
+  - exact Hxs.
+  - apply Forall_map. eapply Forall_impl; [|exact Hs]. now intros syl (_ & _ & H).
+  - rewrite map_map. unfold sylls_of. rewrite <- concat_map. apply map_ext_Forall.
+    eapply Forall_impl; [|exact Hs]. intros syl Hsyl. unfold clean_syll, terminated.
+    rewrite replace_all_joined; [|exact Hxp|].
+    2:{ destruct Hsyl as (_ & Hp & _). eapply Forall_impl; [|exact Hp]. now intros ph (_ & _ & H). }
+    apply replace_sp_tok. exact (syl_ok_tok xp xs syl Hsyl).
+  - exact (tree_ok_sylls_tok _ _ _ _ Ht).
+  - apply clean_syll_ws_only.
+  - apply replace_all_ws_only; [apply ws_only_nil|exact Hws].
+Qed.
+
 (* ================= three defined levels ================= *)
 
 Section Views3.
@@ -340,32 +406,10 @@ Section Views3.
   Theorem prepare_syll_spec_ws : forall ws : str, ws_only ws ->
     prepare_line sep USyll (render sep t ++ ws) = Ok (join [sp] (sylls_of t)).
   Proof.
-    intros ws Hws. unfold prepare_line, sep.
-    cbn [sep3 s_word s_syll s_phone Prepare.Model.osep]. f_equal.
-    assert (Hsp : [sp] <> []) by discriminate.
-    rewrite (replace_all_render_rest xw [] Hxw xp xs xw
-               (or_intror Fwp) (or_intror Fws) (or_introl eq_refl) t ws nested_w).
-    rewrite sub_same, !sub_free by assumption.
-    assert (Hb : blk_ok [sp] xp).
-    { destruct Hsp_p as [E|E]; [now left|right; now apply free_sp]. }
-    rewrite (replace_all_render_rest [sp] [] Hsp xp xs []
-               Hb (or_intror (free_sp xs Hsp_s)) (or_intror (free_nil [sp])) t _ nested_sp).
-    rewrite sub_nil by exact Hsp. rewrite (sub_free [sp] [] xs Hsp (free_sp xs Hsp_s)).
-    assert (Hb2 : blk_ok xp (sub [sp] [] xp) /\ sub xp [] (sub [sp] [] xp) = []).
-    { destruct Hsp_p as [E|E].
-      - rewrite E at 2 4. rewrite sub_same. split; [right; apply free_nil|now apply sub_nil].
-      - rewrite sub_free by (try exact Hsp; now apply free_sp).
-        split; [now left|apply sub_same]. }
-    destruct Hb2 as [Hb2 Es].
-    rewrite (replace_all_render_rest xp [] Hxp (sub [sp] [] xp) xs []
-               Hb2 (or_intror Fps) (or_intror (free_nil xp)) t _ nested_p).
-    rewrite Es, sub_nil, sub_free by assumption.
-    rewrite (replace_all_render_rest xs [sp] Hxs [] xs []
-               (or_intror (free_nil xs)) (or_introl eq_refl) (or_intror (free_nil xs)) t _ nested_s).
-    rewrite sub_same, sub_nil by assumption.
-    rewrite render_syll_only. apply norm_ws_terminated.
-    - exact (tree_ok_sylls_tok _ _ _ _ Ht).
-    - repeat apply replace_all_ws_only; try exact Hws; try apply ws_only_nil; apply ws_only_sp.
+    (* since the syllable level cuts on the syllable separator first, [tree_ok] alone is enough
+       (prepare_syll_spec_spaces); the other hypotheses are kept so that the statement is unchanged *)
+    generalize Fwp Fws Fps Hfree Hsp_s Hsp_p. intros _ _ _ _ _ _.
+    intros ws Hws. now apply prepare_syll_spec_spaces.
   Qed.
 
   Theorem prepare_syll_spec :
@@ -457,9 +501,20 @@ Qed.
 
 (* ================= the syllable level undefined ================= *)
 
-Theorem prepare_syll_undefined (sep : separator) (line : str) :
-  s_syll sep = None -> prepare_line sep USyll line = Raise TypeError.
-Proof. intros H. unfold prepare_line. rewrite H. now destruct (s_word sep). Qed.
+(* since fix 7cc02d3 an undefined syllable level no longer raises: the line is cut on white space *)
+Theorem prepare_syll_undefined_ok (sep : separator) (line w : str) :
+  s_word sep = Some w -> s_syll sep = None ->
+  prepare_line sep USyll line
+  = Ok (norm_ws (join [sp] (map (fun x : str => replace_all [sp] [] (replace_all (Prepare.Model.osep (s_phone sep)) [] x))
+                                (split_ws (replace_all w [] line))))).
+Proof. intros Hw Hs. unfold prepare_line. now rewrite Hw, Hs. Qed.
+
+Theorem prepare_line_never_raises (sep : separator) (u : unit_level) (line w : str) :
+  s_word sep = Some w -> exists o : str, prepare_line sep u line = Ok o.
+Proof.
+  intros Hw. unfold prepare_line. rewrite Hw.
+  destruct u; [eexists; reflexivity|]. destruct (s_syll sep); eexists; reflexivity.
+Qed.
 
 Lemma word_plain_concat (w : list (list str)) : word_plain w = concat (concat w).
 Proof. unfold word_plain, syll_plain. symmetry. apply (@concat_concat char). Qed.
@@ -545,9 +600,6 @@ Section Views2.
   Proof.
     rewrite <- (app_nil_r (render sep t)). apply gold_spec2_ws, ws_only_nil.
   Qed.
-
-  Theorem prepare_syll_undefined2 (line : str) : prepare_line sep USyll line = Raise TypeError.
-  Proof. now apply prepare_syll_undefined. Qed.
 
   Theorem views_aligned2 :
     despace (join [sp] (phones_of t)) = despace (join [sp] (words_of t)) /\
@@ -808,16 +860,6 @@ Proof. vm_compute. reflexivity. Qed.
 (* [tree_ok] already says where each separator occurs inside the tokens of its own level;
    what each view needs on top of it is listed theorem by theorem. *)
 
-Lemma replace_go_terminated (x new : str) (toks : list str) (rest : str) : x <> [] ->
-  Forall (fun a : str => only_at_end x a = true) toks ->
-  replace_go x new (terminated x toks ++ rest) 0
-  = terminated new toks ++ replace_go x new rest 0.
-Proof.
-  intros Hx H. induction H as [|a toks Ha _ IH]; [reflexivity|].
-  rewrite !terminated_cons, <- !app_assoc. rewrite only_at_end_replace_go by assumption.
-  now rewrite IH.
-Qed.
-
 Section ViewsMin.
   Variables xp xs xw : str.
   Hypothesis Hxp : xp <> [].
@@ -953,56 +995,8 @@ Section ViewsMin.
     Forall (free xs) (phones_of t) -> ws_only ws ->
     prepare_line sep USyll (render sep t ++ ws) = Ok (join [sp] (sylls_of t)).
   Proof.
-    intros ws Hsp_s Hsp_p Hfs Hws. unfold prepare_line, sep.
-    cbn [sep3 s_word s_syll s_phone Prepare.Model.osep]. f_equal.
-    assert (Hsp : [sp] <> []) by discriminate.
-    assert (Nsp : Forall (Forall (Forall (free [sp]))) t).
-    { apply phones_of_nested. eapply Forall_impl; [|exact (tree_ok_phones_tok _ _ _ _ Ht)].
-      intros ph [_ H]. now apply free_sp, ws_free_not_sp. }
-    (* the word separator *)
-    rewrite render3_eq. rewrite (replace_all_go xw) by exact Hxw.
-    rewrite replace_go_terminated; [|exact Hxw|].
-    2:{ apply Forall_map. eapply Forall_impl; [|exact Ht]. now intros w (_ & _ & H). }
-    rewrite <- (replace_all_go xw) by exact Hxw.
-    assert (E0 : terminated [] (map (word_body xp xs) t) = render (sep3 xp xs []) t)
-      by (now rewrite render3_eq).
-    rewrite E0.
-    (* the spaces *)
-    assert (Hb : blk_ok [sp] xp).
-    { destruct Hsp_p as [E|[E _]]; [now left|right; now apply free_sp]. }
-    rewrite (replace_all_render_rest [sp] [] Hsp xp xs []
-               Hb (or_intror (free_sp xs Hsp_s)) (or_intror (free_nil [sp])) t _ Nsp).
-    rewrite sub_nil by exact Hsp. rewrite (sub_free [sp] [] xs Hsp (free_sp xs Hsp_s)).
-    (* the phone separator *)
-    assert (E3 : forall rest : str,
-      replace_all xp [] (render (sep3 (sub [sp] [] xp) xs []) t ++ rest)
-      = terminated xs (sylls_of t) ++ replace_all xp [] rest).
-    { intros rest. destruct Hsp_p as [E|[E Fps]].
-      - rewrite E. rewrite sub_same.
-        rewrite (replace_all_render_rest [sp] [] Hsp [] xs []
-                   (or_intror (free_nil [sp])) (or_intror (free_sp xs Hsp_s))
-                   (or_intror (free_nil [sp])) t _ Nsp).
-        rewrite sub_nil by exact Hsp. rewrite (sub_free [sp] [] xs Hsp (free_sp xs Hsp_s)).
-        now rewrite render_syll_only.
-      - rewrite sub_free by (try exact Hsp; now apply free_sp).
-        rewrite <- E0, terminated_nil_sep.
-        assert (E1 : concat (map (word_body xp xs) t) = terminated xs (map (terminated xp) (concat t))).
-        { unfold word_body. rewrite <- (map_map (map (terminated xp)) (terminated xs)).
-          now rewrite concat_terminated, <- concat_map. }
-        rewrite E1, !replace_all_go by exact Hxp.
-        rewrite min_remove_phone_s; [|exact Fps|].
-        2:{ exact (tree_ok_sylls xp xs xw t Ht). }
-        now rewrite sylls_of_concat. }
-    rewrite E3.
-    (* the syllable separator *)
-    rewrite (replace_all_go xs) by exact Hxs.
-    rewrite replace_go_terminated; [|exact Hxs|].
-    2:{ apply (Forall_impl _ (free_only_at_end xs)).
-        apply nested_sylls; [apply free_concat|]. now apply phones_of_nested. }
-    rewrite <- (replace_all_go xs) by exact Hxs.
-    apply norm_ws_terminated.
-    - exact (tree_ok_sylls_tok _ _ _ _ Ht).
-    - repeat apply replace_all_ws_only; try exact Hws; try apply ws_only_nil; apply ws_only_sp.
+    (* the three side conditions are no longer used: see prepare_syll_spec_spaces *)
+    intros ws _ _ _ Hws. now apply prepare_syll_spec_spaces.
   Qed.
 End ViewsMin.
 
@@ -1275,3 +1269,50 @@ Example pad_example :
   /\ gold_line (sep3 pd_p ex_s ex_w) (render_pad pd_p ex_s ex_w ex_t)
      = Ok (join [sp] (words_of ex_t)).
 Proof. vm_compute. split; reflexivity. Qed.
+
+(* ================= what the repair of the syllable level (fix 7cc02d3) bought ================= *)
+
+Definition sx_us : str := [95]%N.                                  (* "_" *)
+Definition sx_t : utree := [[[[97]; [98]]; [[99]]]; [[[100]]]]%N.   (* (ab)(c) (d) *)
+
+(* the syllable separator is a space: "a_b_ c_ ;ewordd_ ;eword" *)
+Example prepare_syll_space_sep :
+  render (sep3 sx_us [sp] ex_w) sx_t
+  = [97;95;98;95;32; 99;95;32; 59;101;119;111;114;100; 100;95;32; 59;101;119;111;114;100]%N /\
+  prepare_line (sep3 sx_us [sp] ex_w) USyll (render (sep3 sx_us [sp] ex_w) sx_t)
+  = Ok [97; 98; 32; 99; 32; 100]%N.                                (* "ab c d" *)
+Proof. vm_compute. split; reflexivity. Qed.
+
+(* the syllable separator contains a space: "= s" *)
+Example prepare_syll_inner_space_sep :
+  render (sep3 sx_us [61; 32; 115]%N ex_w) sx_t
+  = [97;95;98;95;61;32;115; 99;95;61;32;115; 59;101;119;111;114;100; 100;95;61;32;115; 59;101;119;111;114;100]%N /\
+  prepare_line (sep3 sx_us [61; 32; 115]%N ex_w) USyll (render (sep3 sx_us [61; 32; 115]%N ex_w) sx_t)
+  = Ok [97; 98; 32; 99; 32; 100]%N.
+Proof. vm_compute. split; reflexivity. Qed.
+
+(* the phone separator contains a space: "_ _" *)
+Example prepare_syll_phone_inner_space :
+  render (sep3 [95; 32; 95]%N [61]%N ex_w) sx_t
+  = [97;95;32;95;98;95;32;95;61; 99;95;32;95;61; 59;101;119;111;114;100; 100;95;32;95;61; 59;101;119;111;114;100]%N /\
+  prepare_line (sep3 [95; 32; 95]%N [61]%N ex_w) USyll (render (sep3 [95; 32; 95]%N [61]%N ex_w) sx_t)
+  = Ok [97; 98; 32; 99; 32; 100]%N.
+Proof. vm_compute. split; reflexivity. Qed.
+
+(* the three trees above satisfy [tree_ok], the only hypothesis of prepare_syll_spec_spaces *)
+Example prepare_syll_space_examples_ok :
+  tree_ok_b sx_us [sp] ex_w sx_t = true /\ tree_ok_b sx_us [61; 32; 115]%N ex_w sx_t = true /\
+  tree_ok_b [95; 32; 95]%N [61]%N ex_w sx_t = true.
+Proof. vm_compute. repeat split; reflexivity. Qed.
+
+(* an undefined syllable level: the chunks between white space, cleaned; with "_" as phone
+   separator the whole utterance is one chunk, with " " the chunks are the phones *)
+Example prepare_syll_undefined_example_us :
+  prepare_line (sep2 sx_us ex_w) USyll (render (sep2 sx_us ex_w) ex_t)
+  = Ok (concat (phones_of ex_t)).                                   (* "helloworlde" *)
+Proof. vm_compute. reflexivity. Qed.
+
+Example prepare_syll_undefined_example_sp :
+  prepare_line (sep2 [sp] ex_w) USyll (render (sep2 [sp] ex_w) ex_t)
+  = Ok (join [sp] (phones_of ex_t)).                                (* "h e l o w o r l de" *)
+Proof. vm_compute. reflexivity. Qed.
